@@ -154,6 +154,10 @@ func solve(text string, timeout int, wantModel bool, all bool, tag string) *Solv
 
 // solve2 races the portfolio on the full text and, if given, on a lighter variant with fewer
 // hypotheses; "unsat" from either proves the obligation, "sat" is believed only from the full text.
+// noGraceFor: obligations whose reduced query is only a heuristic (witness candidates for an existential
+// goal): a model of the reduced query says nothing about the chances of the full query
+var noGraceFor sync.Map
+
 func solve2(text, light string, timeout int, wantModel bool, all bool, tag string) *SolveResult {
 	sum := sha256.Sum256([]byte(text))
 	h := hex.EncodeToString(sum[:])
@@ -219,7 +223,8 @@ func solve2(text, light string, timeout int, wantModel bool, all bool, tag strin
 		got++
 		if r.ans == "light-sat" {
 			r.ans = "unknown"
-			if grace == nil {
+			_, weak := noGraceFor.Load(tag)
+			if grace == nil && !weak {
 				grace = time.After(10 * time.Second)
 			}
 		}
